@@ -7,25 +7,33 @@ program *before* any code is generated, in the ORDER in which the real code deci
 
 1. `parse_ascent_program` (ascent_syntax.rs): items in textual order — an outer attribute in front of a
    rule / macro / `include_source!` is an error, a `lattice` with no column is an error
-   (`field_types.is_empty()`; before fix 9d3a18a also one with a trailing comma), the first
-   `include_source!` ends parsing
+   (`field_types.is_empty()`; before fix 9d3a18a also one with a trailing comma), a rule whose body contains
+   an empty disjunction `()` at any depth is an error (`DisjunctionNode::parse`, "empty disjunction", since fix
+   361e42e; before it the rule silently disappeared in the disjunction product — finding FM4); the body of a
+   macro DEFINITION is kept as tokens and not parsed here; the first `include_source!` ends parsing
    (`ascent_source!`: error; the other macros: the rest is re-submitted through the included macro, so
    nothing else is decided in this invocation);
 2. `desugar_ascent_program`: macro expansion rule by rule (body items lazily in order, then the heads),
-   depth budget 100 shared by macro invocations and disjunction nesting, `flatten_punctuated`
+   depth budget 100 shared by macro invocations and disjunction nesting; an invocation looks the macro up,
+   matches the arguments, then PARSES the substituted body (here an empty disjunction anywhere in the body
+   is reported, before any nested invocation is expanded), then expands the items of the body; `flatten_punctuated`
    (utils.rs; since fix 71f89c5 it no longer panics when an empty expansion is followed by a comma);
    then the disjunction product,
    `?pattern` arguments become `if let` conditions in front of the clause's own conditions, negation
    becomes `agg () = not() in r(..)`;
 3. `compile_ascent_program_to_hir` (ascent_hir.rs): every rule in order, body items in order, then the
    heads: shadowing (`extend_grounded_vars`), undefined relation / arity (`prog_get_relation`: the LAST
-   declaration with that name); then `AscentConfig::new` (program attributes), then the declarations
-   (`get_ds_attr`, "`lattice`s cannot have custom data structure providers");
+   declaration with that name); an aggregation is first tested for "aggregated variable `z` must be an
+   argument of the aggregated relation" (since fix 5862f99, at the START of the `Agg` arm: before the
+   shadowing test of its pattern and before `prog_get_relation`; formerly `find_position(..).unwrap()`
+   panicked in code generation — finding FM5); then `AscentConfig::new` (program attributes), then the
+   declarations (`get_ds_attr`, "`lattice`s cannot have custom data structure providers"), then the
+   struct / impl signatures ("the identifiers of struct and impl must match", "the generic parameters of
+   struct (..) and impl (..) must match": since fix dfbe0be; formerly two `assert_eq!` of `compile_mir`
+   that came AFTER the stratification test — finding FM6);
 4. `compile_hir_to_mir` (ascent_mir.rs): "use of aggregated relation cannot be stratified", decided with
    `Engine.feeds` / `Engine.dynRels` / `Engine.aggOverDynamic` over the strongly connected classes;
-5. `compile_mir` (ascent_codegen.rs) contains three reachable panics: `find_position(..).unwrap()` on an
-   aggregation whose bound argument is not an argument of the aggregated relation, and the two
-   `assert_eq!` on the struct / impl signatures.
+5. `compile_mir` (ascent_codegen.rs): no reachable panic is left (`check_never_panics`, Props/C15.lean).
 
 The input is a *check-relevant summary* of the program text (`Summary`): names, arities, the variables
 each pattern binds **as `pattern_get_vars` reports them** (`seen`) and the ones it binds without
@@ -51,12 +59,14 @@ inductive Err where
   | undefRel | arity | shadow | strat
   | recMacro | undefMacro | macroArgs | unexpectedToken
   | includeInSource | dsLattice | multiDs | unknownAttr | parOnlyAttr | attrOnItem | attrShape | emptyLattice
-  /-- `agg.rel_args.iter().find_position(..).unwrap()` (ascent_codegen.rs) -/
-  | panicAggBound
-  /-- `assert_eq!(ty_signature.ident, impl_signature.ident, ..)` (ascent_codegen.rs) -/
-  | panicSigName
-  /-- `assert_eq!(ty_ty_generics_str, impl_ty_generics_str, ..)` (ascent_codegen.rs) -/
-  | panicSigGenerics
+  /-- "aggregated variable `z` must be an argument of the aggregated relation" (ascent_hir.rs; fix 5862f99) -/
+  | aggBoundArg
+  /-- "the identifiers of struct and impl must match" (ascent_hir.rs; fix dfbe0be) -/
+  | sigName
+  /-- "the generic parameters of struct (..) and impl (..) must match" (ascent_hir.rs; fix dfbe0be) -/
+  | sigGenerics
+  /-- "empty disjunction" (`DisjunctionNode::parse`, ascent_syntax.rs; fix 361e42e) -/
+  | emptyDisj
   /-- `Punctuated::push_punct` inside `flatten_punctuated` (utils.rs) -/
   | panicFlatten
   /-- `panic!("unexpected macro invocation")`, `panic!("unrecognized BodyItemNode variant")`,
@@ -68,7 +78,7 @@ inductive Err where
 deriving DecidableEq, Repr
 
 def Err.isPanic : Err → Bool
-  | .panicAggBound | .panicSigName | .panicSigGenerics | .panicFlatten | .panicLeftover => true
+  | .panicFlatten | .panicLeftover => true
   | _ => false
 
 def Err.render : Err → String
@@ -78,8 +88,8 @@ def Err.render : Err → String
   | .includeInSource => "err includeInSource" | .dsLattice => "err dsLattice" | .multiDs => "err multiDs"
   | .unknownAttr => "err unknownAttr" | .parOnlyAttr => "err parOnlyAttr" | .attrOnItem => "err attrOnItem"
   | .attrShape => "err attrShape" | .emptyLattice => "err emptyLattice"
-  | .panicAggBound => "panic panicAggBound" | .panicSigName => "panic panicSigName"
-  | .panicSigGenerics => "panic panicSigGenerics" | .panicFlatten => "panic panicFlatten"
+  | .aggBoundArg => "err aggBoundArg" | .sigName => "err sigName" | .sigGenerics => "err sigGenerics"
+  | .emptyDisj => "err emptyDisj" | .panicFlatten => "panic panicFlatten"
   | .panicLeftover => "panic panicLeftover" | .unsupported => "unsupported"
 
 /-- `iter.map(f).collect::<Result<Vec<_>>>()`, `punctuated_try_map`: the first failure in order; later
@@ -230,11 +240,30 @@ inductive Parsed where
   | deferred
 deriving DecidableEq, Repr
 
+mutual
+/-- the item contains, at any depth, a disjunction without alternatives `()`: `DisjunctionNode::parse`
+answers "empty disjunction" (since fix 361e42e) -/
+def Item.hasEmptyDisj : Item → Bool
+  | .disj alts => alts.isEmpty || altsHaveEmptyDisj alts
+  | _ => false
+def itemsHaveEmptyDisj : List Item → Bool
+  | [] => false
+  | it :: rest => it.hasEmptyDisj || itemsHaveEmptyDisj rest
+def altsHaveEmptyDisj : List (List Item) → Bool
+  | [] => false
+  | alt :: rest => itemsHaveEmptyDisj alt || altsHaveEmptyDisj rest
+end
+
+/-- the body of a macro DEFINITION is a token stream (`MacroDefNode`): nothing in it is decided here; the
+body of a rule is parsed (`RuleNode::parse`), after the test for outer attributes -/
 def parseItems : List Top → Except Err Parsed
   | [] => .ok .whole
   | .rel d :: rest => if d.lat && d.arity == 0 then .error .emptyLattice else parseItems rest
   | .mac n _ :: rest => if n != 0 then .error .attrOnItem else parseItems rest
-  | .rule n _ :: rest => if n != 0 then .error .attrOnItem else parseItems rest
+  | .rule n r :: rest =>
+    if n != 0 then .error .attrOnItem
+    else if itemsHaveEmptyDisj r.body then .error .emptyDisj
+    else parseItems rest
   | .incl n :: _ => if n != 0 then .error .attrOnItem else .ok .deferred
 
 /-! ## 2. Macro expansion -/
@@ -273,7 +302,9 @@ def flattenP {α : Type} (inner : List (List α)) (_trailing : Bool) : Except Er
 def depthBudget : Nat := 100
 
 /-- `body_item_expand_macros`; `π` is the position of the item (the tag given to the private names of an
-invocation at that position) -/
+invocation at that position).  An invocation: `macros.get` ("undefined macro"), `invoke_macro` (arguments),
+`Parser::parse2(.., macro_invoked)` (the substituted body is parsed as a whole: "empty disjunction" for a `()`
+anywhere in it, before any item of the body is expanded), then the items of the body in order. -/
 def expandItem (ms : List MacroDef) : Nat → Env → List Nat → Item → Except Err (List Item)
   | 0, _, _, _ => .error .recMacro
   | fuel + 1, σ, π, .mac name args =>
@@ -283,6 +314,7 @@ def expandItem (ms : List MacroDef) : Nat → Env → List Nat → Item → Exce
       if d.isHead then .error .unsupported
       else if args.length < d.params.length then .error .macroArgs
       else if d.params.length < args.length then .error .unexpectedToken
+      else if itemsHaveEmptyDisj d.body then .error .emptyDisj
       else
         let σ' : Env := ⟨d.params.zip (args.map σ.arg), π⟩
         match mapLazy (fun x => expandItem ms fuel σ' (π ++ [x.2]) x.1) d.body.zipIdx with
@@ -441,14 +473,29 @@ def extendBinders : List Var → List Binder → Except Err (List Var)
     | .error e => .error e
     | .ok g' => extendBinders g' bs
 
-/-- one body item of `compile_rule_to_ir_rule` -/
+/-- the identifier arguments (`expr_to_ident`) of a clause or of an aggregated relation -/
+def argVars : List Arg → List Var
+  | [] => []
+  | .var v :: rest => v :: argVars rest
+  | _ :: rest => argVars rest
+
+/-- every bound argument of the aggregation (`agg p = f(bound..) in rel(args..)`) is one of the identifier
+arguments of the aggregated relation -/
+def aggBoundOk : Ev → Bool
+  | .agg _ args _ bound => bound.all fun v => (argVars args).contains v
+  | _ => true
+
+/-- one body item of `compile_rule_to_ir_rule`; the `Agg` arm starts with the test of the bound arguments
+(fix 5862f99), before the shadowing test of the pattern and before `prog_get_relation` -/
 def hirEv (ds : List Decl) (g : List Var) : Ev → Except Err (List Var)
   | .clause rel args conds =>
     match getRelation ds rel args.length with
     | .error e => .error e
     | .ok _ => extendBinders (groundArgs g args) (patConds args ++ conds)
   | .binder b => extendGrounded g b.seen
-  | .agg rel args pat _ =>
+  | .agg rel args pat bound =>
+    if !aggBoundOk (.agg rel args pat bound) then .error .aggBoundArg
+    else
     match extendGrounded g pat.seen with
     | .error e => .error e
     | .ok g' =>
@@ -553,33 +600,24 @@ def stratError (p : Skel) : Bool :=
   let table := (List.range n).map fun i => reachFrom p n [i]
   (List.range n).any fun i => aggOverDynamic p (classOf p table i)
 
-/-! ## 5. Code generation: the reachable panics -/
+/-! ## 3b. HIR, last step: the struct / impl signatures (the end of `compile_ascent_program_to_hir`, fix dfbe0be;
+in the pipeline this comes after the declarations of section 3 and BEFORE the stratification test of section 4) -/
 
-def argVars : List Arg → List Var
-  | [] => []
-  | .var v :: rest => v :: argVars rest
-  | _ :: rest => argVars rest
-
-def aggBoundOk : Ev → Bool
-  | .agg _ args _ bound => bound.all fun v => (argVars args).contains v
-  | _ => true
-
-def codegenCheck (rules : List CoreRule) (sig : Option Sig) : Except Err Unit :=
-  if rules.any fun r => r.body.any fun ev => !aggBoundOk ev then .error .panicAggBound
-  else
-    match sig with
+def sigCheck (sig : Option Sig) : Except Err Unit :=
+  match sig with
+  | none => .ok ()
+  | some s =>
+    match s.implName with
     | none => .ok ()
-    | some s =>
-      match s.implName with
-      | none => .ok ()
-      | some i =>
-        if i != s.structName then .error .panicSigName
-        else if !s.genericsMatch then .error .panicSigGenerics
-        else .ok ()
+    | some i =>
+      if i != s.structName then .error .sigName
+      else if !s.genericsMatch then .error .sigGenerics
+      else .ok ()
 
 /-! ## The pipeline -/
 
-/-- `ascent_impl` after parsing -/
+/-- `ascent_impl` after parsing: `desugar_ascent_program`, `compile_ascent_program_to_hir` (rules, program
+attributes, declarations, signatures), `compile_hir_to_mir` (stratification); code generation decides nothing -/
 def compile (s : Summary) : Except Err Unit :=
   match desugar s.macros s.rules with
   | .error e => .error e
@@ -593,8 +631,11 @@ def compile (s : Summary) : Except Err Unit :=
         match declsCheck s.decls with
         | .error e => .error e
         | .ok _ =>
-          if stratError (skeleton s.decls rules) then .error .strat
-          else codegenCheck rules s.sig
+          match sigCheck s.sig with
+          | .error e => .error e
+          | .ok _ =>
+            if stratError (skeleton s.decls rules) then .error .strat
+            else .ok ()
 
 /-- what the macro answers for the program: `.ok ()` = code is emitted -/
 def check (s : Summary) : Except Err Unit :=
